@@ -281,6 +281,26 @@ fn check_ids(ids: &[u8], big_endian: bool) -> CheckResult {
             for junk in [&b""[..], &b"x"[..], &b"junkDLTjunk, more junk"[..]] {
                 let mut buf = junk.to_vec();
                 buf.extend_from_slice(&b);
+                if !junk.is_empty() {
+                    // the complete message behind junk: the same four ids (whatever bytes the id fields hold)
+                    let r = guard(|| dlt_message(&buf, None, true).map(|(rest, pm)| (rest.len(), pm))).map_err(|p| Violation::from_panic(&format!("dlt_message on {}", hex_short(&buf)), &p))?;
+                    match r {
+                        Ok((0, ParsedMessage::Item(mj))) => {
+                            let gotj = [
+                                mj.storage_header.as_ref().map(|s| s.ecu_id.clone()).unwrap_or_default(),
+                                mj.header.ecu_id.clone().unwrap_or_default(),
+                                mj.extended_header.as_ref().map(|e| e.application_id.clone()).unwrap_or_default(),
+                                mj.extended_header.as_ref().map(|e| e.context_id.clone()).unwrap_or_default(),
+                            ];
+                            for i in 0..4 {
+                                if gotj[i] != got[i] {
+                                    return Err(viol!(format!("ids:{}:behind-junk", names[i]), "{} bytes {} parsed as {:?} behind {} junk bytes, {:?} without junk", names[i], hex_short(&ids[i * 4..i * 4 + 4]), gotj[i], junk.len(), got[i]));
+                                }
+                            }
+                        }
+                        other => return Err(viol!("ids:behind-junk", "the message with id bytes {} behind {} junk bytes did not parse completely: {}", hex_short(ids), junk.len(), short_dbg(&other))),
+                    }
+                }
                 for (i, fs) in field_starts.iter().enumerate() {
                     for have in 0..4usize {
                         let cut = junk.len() + fs + have;
